@@ -7,6 +7,7 @@ import re
 import unicodedata
 
 import gen_jwt
+import go2lean_c05
 import vlib
 
 PID = "C05"
@@ -353,6 +354,13 @@ def shrink(exe, case):
 # ---------------------------------------------------------------------------------------------------------------
 
 def run(R):
+    try:
+        _run(R)
+    finally:
+        go2lean_c05.report(R)
+
+
+def _run(R):
     harness_env(R)
     exe = vlib.step_harness(R)
     if exe is None:
@@ -366,6 +374,7 @@ def run(R):
     except gen_jwt.ExtractError as e:
         facts, tie_error = None, str(e)
     lean_ok = vlib.step_lean(R, PID)
+    go2lean_c05.step(R)
     if not os.path.exists(vlib.driver_cmd()[0]):
         R.violation("the model driver does not build", {"lean_log": R.lean["log"]}, no_input=True)
         return
